@@ -6,6 +6,13 @@ def funcs : List (String × String) := [
   ("internal/dsn/dsn.go:GenerateDSN", "cafaf64ea3d645c5"),
   ("internal/dsn/dsn.go:RecipientInfo.WriteTo", "d9fd7d637aa8aaeb"),
   ("internal/dsn/dsn.go:ReportingMTAInfo.WriteTo", "77fbdf28a15ed64c"),
+  ("internal/dsn/dsn.go:type Action", "15ada61402c8abb1"),
+  ("internal/dsn/dsn.go:type Envelope", "f0614c26e1fe659a"),
+  ("internal/dsn/dsn.go:type RecipientInfo", "0e279e2fb0ba3aba"),
+  ("internal/dsn/dsn.go:type ReportingMTAInfo", "653f952fbb19e250"),
+  ("internal/dsn/dsn.go:writeHeader", "f4d399f446a887e0"),
+  ("internal/dsn/dsn.go:writeHumanReadablePart", "17b9a08d4f6d92e6"),
+  ("internal/dsn/dsn.go:writeMachineReadablePart", "17ff9620a7504ce3"),
   ("internal/target/queue/queue.go:Queue.emitDSN", "1e8fbe65a4db35c1"),
   ("internal/target/queue/queue.go:toSMTPErr", "22651b4e75b94c9a")
 ]
